@@ -58,13 +58,13 @@ theorem scim_translation_sound_partial (fold : Nat → Nat) (env : Env) (self : 
 
 /-- LDAP `>=`, `<=`, `~=` and extensible match anywhere in the filter: the whole filter is refused. -/
 theorem ldap_unsupported_rejected (env : Env) (lf : LF) (h : lf.hasUnsupported = true)
-    (maxElems : Nat) : ∃ err, ldapTrTop env maxElems lf = .error err := by
+    (maxElems : Nat) : (ldapTrTop env maxElems lf).toBool = false := by
   obtain ⟨e, he⟩ := ldapTr_rejects env lf h filterDepthMax maxElems
-  exact ⟨e, by simp [ldapTrTop, he]⟩
+  simp [ldapTrTop, he, Except.toBool]
 
 /-- SCIM `ne`, a sub-attribute path or a value path anywhere in the filter: refused. -/
 theorem scim_unsupported_rejected (env : Env) (sf : SF) (h : sf.hasUnsupported = true)
-    (maxElems : Nat) : ∃ err, scimTrTop env maxElems sf = .error err := by
+    (maxElems : Nat) : (scimTrTop env maxElems sf).toBool = false := by
   have := scimTr_rejects_of env SF.hasUnsupported
     (by
       intro op a sub v hb d n
@@ -82,7 +82,7 @@ theorem scim_unsupported_rejected (env : Env) (sf : SF) (h : sf.hasUnsupported =
     (fun _ => rfl) (fun _ _ => rfl) (fun _ _ => rfl)
     (fun _ d n => scimTr_complex_rejects env d n) sf h filterDepthMax maxElems
   obtain ⟨e, he⟩ := this
-  exact ⟨e, by simp [scimTrTop, he]⟩
+  simp [scimTrTop, he, Except.toBool]
 
 /-- An accepted SCIM filter applies ordering operators only to single-valued attributes of an
 orderable syntax (the guard added for defect D8). -/
@@ -177,9 +177,16 @@ regenerated lists are disjoint), so every SCIM filter containing `gt`/`ge`/`lt`/
 either by the ordering guard or, for orderable attributes, by the value resolution. -/
 theorem scim_ordering_currently_rejected (env : Env)
     (hres : ∀ a s m j, env.syn a = some (s, m) → scimResolvableSyn.contains s = false →
-      ∃ err, env.scimVal a j = .error err)
+      (env.scimVal a j).toBool = false)
     (sf : SF) (h : sf.hasOrdering = true) (maxElems : Nat) :
-    ∃ err, scimTrTop env maxElems sf = .error err := by
+    (scimTrTop env maxElems sf).toBool = false := by
+  have hres' : ∀ a s m j, env.syn a = some (s, m) → scimResolvableSyn.contains s = false →
+      ∃ err, env.scimVal a j = .error err := by
+    intro a s m j hs hr
+    have := hres a s m j hs hr
+    cases hv : env.scimVal a j with
+    | error err => exact ⟨err, rfl⟩
+    | ok v => simp [hv, Except.toBool] at this
   have := scimTr_rejects_of env SF.hasOrdering
     (by
       intro op a sub v hb d n
@@ -200,7 +207,7 @@ theorem scim_ordering_currently_rejected (env : Env)
             | error err => exact ⟨err, rfl⟩
             | ok u =>
               obtain ⟨s, hs, hc⟩ := orderingSupported_ok ho
-              obtain ⟨err, herr⟩ := hres a s false v hs (orderable_not_resolvable s hc)
+              obtain ⟨err, herr⟩ := hres' a s false v hs (orderable_not_resolvable s hc)
               exact ⟨err, by simp [herr]⟩
           cases op <;> simp [SF.hasOrdering, SOp.isOrdering] at hb <;> simp only [scimArm]
           all_goals
@@ -209,7 +216,7 @@ theorem scim_ordering_currently_rejected (env : Env)
     (fun _ => rfl) (fun _ _ => rfl) (fun _ _ => rfl)
     (fun hc => by simp [SF.hasOrdering] at hc) sf h filterDepthMax maxElems
   obtain ⟨e, he⟩ := this
-  exact ⟨e, by simp [scimTrTop, he]⟩
+  simp [scimTrTop, he, Except.toBool]
 
 /-- A substring assertion without any component translates to the empty `And`, which `validate`
 refuses (`SchemaError::EmptyFilter`). -/
@@ -385,7 +392,7 @@ example : scimTrTop stdEnv 32 (.cmp .ge 5 false (.num 5)) = .error .invalidAttri
 example : scimTrTop stdEnv 32 (.cmp .ge 1 false (.str [97])) = .error .filterGeneration := by rfl
 /-- `stdEnv` satisfies the hypothesis of `scim_ordering_currently_rejected` -/
 example : ∀ a s m j, stdEnv.syn a = some (s, m) → scimResolvableSyn.contains s = false →
-    ∃ err, stdEnv.scimVal a j = .error err := by
+    (stdEnv.scimVal a j).toBool = false := by
   intro a s m j hs hr
   simp only [stdEnv] at hs ⊢
   cases hrow : rowOfAtom a with
@@ -398,7 +405,7 @@ example : ∀ a s m j, stdEnv.syn a = some (s, m) → scimResolvableSyn.contains
     rcases hmem with rfl | rfl | rfl | rfl | rfl | rfl | rfl | rfl | rfl <;>
       first
       | (exfalso; revert hr; decide)
-      | exact ⟨.invalidAttribute, by cases j <;> rfl⟩
+      | (cases j <;> rfl)
 /-- an entry named `a` with gidnumber 7 -/
 def exOrdEntry : Entry := fun a => if a = 5 then [.num 7] else if a = 1 then [.str [97]] else []
 
